@@ -58,6 +58,8 @@ def gen(rng, tier):
             tm_ = rng.choice(tms_)
             others_ = [x["id"] for x in spec["model"]["teams"] if x is not tm_]
             rng.choice(tm_["workers"])["team_id"] = rng.choice(others_)
+    if rng.random() < 0.08:
+        spec["cfg"]["unit_time"] = rng.choice([0.5, 1.5, 2])  # the clock advances by that much per step (project.time need not be an integer)
     spec["read_twice"] = rng.random() < 0.15
     if spec["read_twice"] and rng.random() < 0.4:
         spec["cont_rule"] = 4  # the continuation runs under the FIFO rule (which reads the state records of the tasks)
